@@ -143,16 +143,19 @@ def tx_block_during_consume(trace, i, uni):
 
 
 def tx_safe_after_confirmed_during_consume(trace, i, uni):
-    """F10, as seen by the checker: transaction t was confirmed by a block while the consumer was parked between the mempool add and the
-    unconfirmed add of t; t is then tracked as unconfirmed although it is in the chain and no longer in the mempool, so a conflicting
-    transaction that arrives later is not held against it.  True iff every safe report of line i that has a conflict is such a t."""
+    """F10, as seen by the checker: transaction t was confirmed by a block - or evicted by it as a double spend of one of its
+    transactions - while the consumer was parked between the mempool add and the unconfirmed add of t; t is then tracked as
+    unconfirmed although it has left the mempool, so a conflicting transaction is not held against it.  True iff every safe report
+    of line i that has a conflict is such a t."""
     stuck = set()
     for k in range(1, i + 1):
         a = trace[k]['act']
         if a['a'] == 'Block' and not trace[k].get('skip'):
             pre = trace[k - 1]['st']
-            if pre['c']['pc'] == 'mid' and pre['c']['t'] in uni['blk'][a['t'] - 1]:
-                stuck.add(pre['c']['t'])
+            if pre['c']['pc'] == 'mid':
+                t, blk = pre['c']['t'], uni['blk'][a['t'] - 1]
+                if t in blk or any(set(uni['ins'][t - 1]) & set(uni['ins'][x - 1]) for x in blk):
+                    stuck.add(t)      # confirmed by that block, or evicted by it as a double spend of one of its transactions
     pre, post = trace[i - 1]['st'], trace[i]['st']
     bad = set()
     for n in post['dl'][len(pre['dl']):]:
